@@ -51,6 +51,20 @@ for d in seeded/C04-r8-expiry-disabled-while-backlog/patch.diff seeded/C04-r6-re
   if expirygate; then echo "FAIL  $d is not flagged by Gen/ExpiryCheck.v"; bad=1
   else echo "ok    $d flagged by Gen/ExpiryCheck.v: $(grep -o 'line [0-9]*' $W/gen/out | head -1)"; fi
 done
+consumergate() {   # -> 0 if every theorem of Gen/ConsumerCheck.v checks against the sources in $W/repo
+  mkdir -p $W/gen && rm -f $W/gen/*
+  $T/release/lockscan $W/repo $W/gen/LockEdges.v $W/gen/le.json || return 2
+  sed 's/From Deltio Require Import Gen.LockEdges\./From DeltioRun Require Import LockEdges./' coq/Gen/ConsumerCheck.v > $W/gen/ConsumerCheck.v
+  coqc -q -Q coq Deltio -Q $W/gen DeltioRun $W/gen/LockEdges.v >/dev/null 2>&1 || return 2
+  coqc -q -Q coq Deltio -Q $W/gen DeltioRun $W/gen/ConsumerCheck.v >$W/gen/out 2>&1
+}
+git -C $W/repo checkout -q -- .
+if consumergate; then echo "ok    unchanged tree: Gen/ConsumerCheck.v checks"; else echo "FAIL  unchanged tree is flagged by Gen/ConsumerCheck.v"; tail -5 $W/gen/out; bad=1; fi
+for d in seeded/C15-r7-reserve-before-wake-next-guard/patch.diff seeded/C12-r8-pull-without-deleted-branch/patch.diff seeded/C06-r8-pull-waits-for-one-signal-only/patch.diff seeded/C07-r8-pull-limit-checked-only-on-wake-up/patch.diff; do
+  git -C $W/repo checkout -q -- . && git -C $W/repo apply $V/$d || { echo "FAIL  $d does not apply"; bad=1; continue; }
+  if consumergate; then echo "FAIL  $d is not flagged by Gen/ConsumerCheck.v"; bad=1
+  else echo "ok    $d flagged by Gen/ConsumerCheck.v: $(grep -o 'line [0-9]*' $W/gen/out | head -1)"; fi
+done
 git -C $W/repo checkout -q -- .
 if ackgate; then echo "ok    unchanged tree: Gen/AckCheck.v checks"; else echo "FAIL  unchanged tree is flagged by Gen/AckCheck.v"; tail -5 $W/gen/out; bad=1; fi
 for d in seeded/C02-r8-acknowledge-returns-when-queued/patch.diff; do
